@@ -139,4 +139,59 @@ theorem unbracketed_leaks :
 
 example : guarded [.cwEnter, .filt 1, .eval, .raised, .cwExit] 0 0 = true := by decide
 
+/-- a guarded stretch, wherever it starts, comes back to the nesting depths (0, 0) it must end on: what follows it is judged from there -/
+theorem guarded_append_aux (t2 : List Ev) : ∀ (t1 : List Ev) (d c : Nat),
+    guarded t1 d c = true → guarded (t1 ++ t2) d c = guarded t2 0 0
+  | [], d, c, h => by
+    simp only [guarded, Bool.and_eq_true, beq_iff_eq] at h
+    obtain ⟨rfl, rfl⟩ := h
+    rfl
+  | .esEnter :: t, d, c, h => by
+    simp only [List.cons_append, guarded] at h ⊢
+    exact guarded_append_aux t2 t (d + 1) c h
+  | .esExit :: t, d + 1, c, h => by
+    simp only [List.cons_append, guarded] at h ⊢
+    exact guarded_append_aux t2 t d c h
+  | .esExit :: t, 0, c, h => by simp [guarded] at h
+  | .setErr i o :: t, d, c, h => by
+    simp only [List.cons_append, guarded, Bool.and_eq_true, decide_eq_true_eq] at h ⊢
+    rw [guarded_append_aux t2 t d c h.2]
+    simp [h.1]
+  | .cwEnter :: t, d, c, h => by
+    simp only [List.cons_append, guarded] at h ⊢
+    exact guarded_append_aux t2 t d (c + 1) h
+  | .cwExit :: t, d, c + 1, h => by
+    simp only [List.cons_append, guarded] at h ⊢
+    exact guarded_append_aux t2 t d c h
+  | .cwExit :: t, d, 0, h => by simp [guarded] at h
+  | .filt n :: t, d, c, h => by
+    simp only [List.cons_append, guarded, Bool.and_eq_true, decide_eq_true_eq] at h ⊢
+    rw [guarded_append_aux t2 t d c h.2]
+    simp [h.1]
+  | .setPrint n :: t, d, c, h => by simp [guarded] at h
+  | .eval :: t, d, c, h => by
+    simp only [List.cons_append, guarded] at h ⊢
+    exact guarded_append_aux t2 t d c h
+  | .raised :: t, d, c, h => by
+    simp only [List.cons_append, guarded] at h ⊢
+    exact guarded_append_aux t2 t d c h
+
+/-- **calls in sequence.** One guarded call after another (the SIP fit, then the -TAB export, inside `to_fits`; a forward evaluation
+    after an inversion) is guarded: settings are restored after the whole session. -/
+theorem guarded_append (t1 t2 : List Ev) (h1 : guarded t1 0 0 = true) (h2 : guarded t2 0 0 = true) :
+    guarded (t1 ++ t2) 0 0 = true := by
+  rw [guarded_append_aux t2 t1 0 0 h1, h2]
+
+theorem sequence_restores (t1 t2 : List Ev) (err : ErrModes) (filters : List Nat) (print : Nat)
+    (h1 : guarded t1 0 0 = true) (h2 : guarded t2 0 0 = true) :
+    (run (t1 ++ t2) (fresh err filters print)).err = err ∧ (run (t1 ++ t2) (fresh err filters print)).filters = filters ∧
+      (run (t1 ++ t2) (fresh err filters print)).print = print :=
+  restores_G (t1 ++ t2) err filters print (guarded_append t1 t2 h1 h2)
+
+/-- witnesses (not the property): a filter installed outside any `catch_warnings`, and a `set_printoptions` on an error path, stay -/
+theorem unbracketed_filter_and_print_leak :
+    let g0 := fresh ⟨.warn, .warn, .ignore, .warn⟩ [7] 0
+    guarded [.filt 1, .eval] 0 0 = false ∧ (run [.filt 1, .eval] g0).filters ≠ g0.filters ∧
+    guarded [.setPrint 3, .raised] 0 0 = false ∧ (run [.setPrint 3, .raised] g0).print ≠ g0.print := by decide
+
 end Gwcs.Eff
